@@ -13,6 +13,7 @@ class Spec(c01.Spec):
         {'label': 'acyclic-malformed', 'family': 'malformed'},
         {'label': 'acyclic-unmergeable', 'family': 'unmergeable'},
         {'label': 'tasks-calling-sys-exit', 'family': 'exiting'},
+        {'label': 'tasks-echoing-their-entry', 'family': 'echo'},
         {'label': 'cyclic', 'family': 'well', 'cyclic': True},
         {'label': 'initial-env', 'family': 'well', 'init_env': True},
         {'label': 'initial-env-malformed', 'family': 'malformed',
